@@ -106,8 +106,76 @@ def generic_run(pid, res, tier, seed, proof_broken, cases, rule, replays=None):
         s = dict(s)
         s["property"] = pid
         res.violation(s)
-    if proof_broken and not rejects and not hard:
-        res.violation({"property": pid, "kind": "proof obligation no longer checks", "broken": proof_broken}, no_input=True)
+    res._engine_rejects = len(rejects) + len(hard)
+    res._engine_pid = pid
+
+
+def finish_engine_check(res, tier, seed, broken, before):
+    """step 4 for the engine-level checks: if a proof obligation or the decision-table tie broke and the registered families
+    showed no reject, look for a concrete failing run in wider scenarios (fault after download + re-edit); a hit replaces the
+    `no-failing-input-found` verdicts"""
+    pid = res._engine_pid
+    noinput = [v for v in res.violations[before:] if v[1]]
+    concrete = [v for v in res.violations if not v[1]]
+    if not noinput and not (broken and not concrete):
+        return
+    hit = None
+    for fl in ALL:
+        for side in (0, 1):
+            for mode in ("write", "create"):
+                hit = hit or edit_after_fault_scenario(fl, side, mode)
+        if hit:
+            break
+    if hit:
+        hit.update({"property": pid, "kind": "concrete failing run found after a broken obligation / decision-table tie", "broken": broken})
+        res.violations = [v for v in res.violations if not v[1]]
+        res.violation(hit)
+    elif not noinput and not concrete:
+        res.violation({"property": pid, "kind": "proof obligation no longer checks", "broken": broken}, no_input=True)
+
+
+def edit_after_fault_scenario(flavour, side, mode):
+    """file edited, the engine downloads it, the upload/create on the other side fails once with a temporary error, the user
+    edits again before the retry, faults stop: at quiescence both sides must hold the LAST edit.  Returns a replay dict or None."""
+    import cloudsync.exceptions as ex
+    w = World(flavour)
+    try:
+        rec = Recorder(w, random.Random(7))
+        rec.spell_roots = False
+        if mode == "write":
+            rec.user(side, "create", "/f.txt", tag=1)
+            if not rec.quiesce():
+                return None
+            rec.user(side, "write", "/f.txt", tag=2)
+        else:
+            rec.quiesce()
+            rec.user(side, "create", "/f.txt", tag=2)
+        armed = {"on": True}
+
+        def hook(s, method, args):
+            if armed["on"] and s == 1 - side and method in ("upload", "create"):
+                armed["on"] = False
+                raise ex.CloudTemporaryError("injected once")
+        w.fault_hook = hook
+        for _ in range(12):
+            for x in "LRS":
+                rec.engine(x)
+            if not armed["on"]:
+                break
+        w.fault_hook = None
+        if armed["on"]:
+            return None
+        rec.user(side, "write", "/f.txt", tag=3)
+        q = rec.quiesce()
+        tl, tr = w.tree(0), w.tree(1)
+        want = ("f", content(3))
+        if not q or tl.get("/f.txt") != want or tr.get("/f.txt") != want:
+            return case_summary(rec, {"failure": "after a transient upload/create fault and a second edit the sides do not both hold the last edit",
+                                      "fault": "CloudTemporaryError once at the first engine %s on side %d" % ("upload/create", 1 - side),
+                                      "expected": "/f.txt = v3 on both sides", "quiet": q})
+        return None
+    finally:
+        w.close()
 
 
 def run_c01(res, tier, seed, proof_broken, replay):
